@@ -11,6 +11,7 @@ import (
 	"runtime"
 	"strings"
 	"sync"
+	"sync/atomic"
 	"syscall"
 	"time"
 )
@@ -143,7 +144,7 @@ func RunNode(jsPath string, args []string, o NodeOpts) Outcome {
 		// one more attempt with a generous budget, then the run is inconclusive
 		so, se, code, to = runCmd(6*o.Timeout, env, filepath.Dir(jsPath), "node", nargs...)
 		if to && os.Getenv("VERIF_TIMEOUT_IS_OUTCOME") == "" {
-			Infra("node %s %v did not finish within %v (inconclusive; a busy machine or a program that hangs)", jsPath, args, 6*o.Timeout)
+			Inconclusive("node %s %v did not finish within %v (a busy machine or a program that hangs)", jsPath, args, 6*o.Timeout)
 		}
 	}
 	out := Outcome{Trace: splitLines(so), Stderr: se, Code: code}
@@ -274,7 +275,7 @@ func RunNative(bin string, args []string, timeout time.Duration, extraEnv ...str
 	if to {
 		so, se, code, to = runCmd(6*timeout, env, filepath.Dir(bin), bin, args...)
 		if to {
-			Infra("native %s %v did not finish within %v (inconclusive)", bin, args, 6*timeout)
+			Inconclusive("native %s %v did not finish within %v", bin, args, 6*timeout)
 		}
 	}
 	_ = so
@@ -375,6 +376,8 @@ func Parallel(n int, f func(i int)) {
 	ParallelN(runtime.NumCPU(), n, f)
 }
 
+var parallelDepth atomic.Int32
+
 // ParallelN runs f(i) for i in [0,n) on up to w workers.
 func ParallelN(w, n int, f func(i int)) {
 	if w > n {
@@ -383,6 +386,16 @@ func ParallelN(w, n int, f func(i int)) {
 	if w < 1 {
 		w = 1
 	}
+	// the outermost call (made by the test's own goroutine) swallows inconclusive cases, nested
+	// calls hand them to the case that made them
+	top := parallelDepth.Add(1) == 1
+	defer parallelDepth.Add(-1)
+	var skipped atomic.Bool
+	defer func() {
+		if skipped.Load() && !top {
+			panic(inconclusive{})
+		}
+	}()
 	var wg sync.WaitGroup
 	ch := make(chan int)
 	for k := 0; k < w; k++ {
@@ -390,7 +403,19 @@ func ParallelN(w, n int, f func(i int)) {
 		go func() {
 			defer wg.Done()
 			for i := range ch {
-				f(i)
+				func() {
+					// a case that hit its time budget is skipped (the run ends as inconclusive
+					// unless another case shows a violation)
+					defer func() {
+						if r := recover(); r != nil {
+							if _, ok := r.(inconclusive); !ok {
+								panic(r)
+							}
+							skipped.Store(true)
+						}
+					}()
+					f(i)
+				}()
 			}
 		}()
 	}
